@@ -15,7 +15,7 @@ LEMMAS = {
     'C09': ['vdamage::lemma_damaged_frame', 'vdamage::lemma_skip_frames', 'vdamage::lemma_damaged_record', 'vdamage::lemma_one_damaged_entry', 'vdamage::lemma_replay_log_is_fold', 'vdamage::lemma_one_damaged_entry_replay', 'vdamage::lemma_read_all_intact'],
     'C10': ['vspec::lemma_frame_step_progress', 'vspec::rec_step', 'vspec::lemma_rec_step_progress', 'vfs::lemma_all_blocks_ok', 'vfs::lemma_block_at'],
     'C11': ['vspec::lemma_frame_step_progress', 'vspec::lemma_rec_step_progress', 'vfs::lemma_blocks_below_skip', 'vfs::lemma_blocks_below_step'],
-    'C12': ['vspec::lemma_parse_ser_items', 'vspec::lemma_rec_step_progress', 'vtorn::lemma_zeros_end', 'vtorn::lemma_torn_frame', 'vtorn::lemma_torn_record', 'vtorn::lemma_torn_tail'],
+    'C12': ['vspec::lemma_parse_ser_items', 'vspec::lemma_rec_step_progress', 'vtorn::lemma_zeros_end', 'vtorn::lemma_torn_frame', 'vtorn::lemma_torn_record', 'vtorn::lemma_torn_tail', 'vdamage::lemma_read_all_of_prefix', 'vdamage::lemma_torn_tail_replay'],
     'C15': ['vspec::lemma_enc_len_bound', 'vspec::lemma_ser_entry_len'],
     'C16': ['vsum::lemma_wsum_pick', 'vsum::lemma_wsum_insert', 'vsum::lemma_wsum_le', 'vsum::lemma_wsum_eq', 'vsum::lemma_wsum_add', 'vsum::lemma_used_bounds', 'vsum::lemma_used_all_empty',
             'vsum::lemma_payload_split', 'vsum::lemma_used_truncate', 'mem::queues::MemQueues::lemma_used_is_view', 'mem::queue::MemQueue::lemma_size_spec_view'],
@@ -132,7 +132,7 @@ PROPS = {
         level='proof',
         explain='One call = one entry carrying the whole serialized batch (O-C12-one); an entry is delivered only from an intact First..Last run (O-C12-deliver vs rec_step); '
                 'the batch is validated before any record of it is applied (O-C12-validate). '
-                'Composition L-C12 (spec/vtorn.rs, lemma_torn_tail): for every stream offset, every sequence of entries of any sizes and EVERY cut point (byte granularity), a WAL that reads as zeros behind the cut is recovered as a PREFIX of the entries written, each whole, followed by the end of the log (after at most one Corruption) -- no batch with a hole or a missing tail, nothing from behind the cut; hypothesis: the checksum tells a frame payload from its zero-tailed truncations (the "up to a CRC-32 collision" of the property, shown satisfiable).',
+                'Composition L-C12 (spec/vtorn.rs, lemma_torn_tail): for every stream offset, every sequence of entries of any sizes and EVERY cut point (byte granularity), a WAL that reads as zeros behind the cut is recovered as a PREFIX of the entries written, each whole, followed by the end of the log (after at most one Corruption) -- no batch with a hole or a missing tail, nothing from behind the cut; hypothesis: the checksum tells a frame payload from its zero-tailed truncations (the "up to a CRC-32 collision" of the property, shown satisfiable); at the logical level (lemma_torn_tail_replay) open then computes the replay of a prefix of the entries written.',
         kani_quick=[], kani_thorough=[],
         trusted=[FS, 'MultiRecord::{serialize,serialize_with_pos} are VERIFIED over the assumed contracts of bytes::Buf (R10: a cursor over a byte string; chunk() a non-empty prefix while bytes remain) and of (start..).zip(it) (R19); the payload iterator is assumed to obey vstd\'s iterator laws and to be finite (iter_ok, a precondition of append_records)'], not_decided=['in-place damage other than a zero tail (bit flips, garbage): decided per frame by O-C08-step / O-C12-deliver, not composed over histories', 'that a crashed file system presents a zero tail (sequential writes into pre-zeroed files): assumption about the FS, see C02'],
     ),
